@@ -255,25 +255,18 @@ fn any_fd_state() -> FdState {
     s
 }
 
+/// Writes the pre-state straight into the model containers (slot i for descriptor i): no search loops, no branching.
 fn install(p: &Poller, i: usize, s: &FdState) {
     let fd = FDS[i];
-    if s.r {
-        _ = READABLE_RECORDS.insert(fd);
-        if s.rt {
-            _ = READABLE_TOKEN_RECORDS.insert(fd, s.tok_r);
-        }
-    }
-    if s.w {
-        _ = WRITABLE_RECORDS.insert(fd);
-        if s.wt {
-            _ = WRITABLE_TOKEN_RECORDS.insert(fd, s.tok_w);
-        }
-    }
-    if s.r || s.w {
-        let bits = if s.r && s.w { MioInterest::READABLE.add(MioInterest::WRITABLE) } else if s.r { MioInterest::READABLE } else { MioInterest::WRITABLE };
-        let ok = p.do_register(fd, s.tok_os, bits).is_ok();
-        kani::assert(ok, "harness: installing the pre-state registration succeeds");
-    }
+    READABLE_RECORDS.verif_set_slot(i, if s.r { Some(fd) } else { None });
+    READABLE_TOKEN_RECORDS.verif_set_slot(i, if s.r && s.rt { Some((fd, s.tok_r)) } else { None });
+    WRITABLE_RECORDS.verif_set_slot(i, if s.w { Some(fd) } else { None });
+    WRITABLE_TOKEN_RECORDS.verif_set_slot(i, if s.w && s.wt { Some((fd, s.tok_w)) } else { None });
+    let bits: u8 = (s.r as u8) | ((s.w as u8) << 1);
+    p.registry().verif_set_slot(
+        i,
+        if s.r || s.w { Some(mio::Registration { fd, token: s.tok_os as usize, bits }) } else { None },
+    );
 }
 
 fn inv(p: &Poller, g: &[Ghost; NFD]) {
@@ -318,8 +311,10 @@ fn step(kind: u8) {
     install(&p, 0, &s0);
     install(&p, 1, &s1);
     let mut g = [Ghost { r: s0.r, w: s0.w }, Ghost { r: s1.r, w: s1.w }];
-    let i: usize = kani::any();
-    kani::assume(i < NFD);
+    // The operation addresses descriptor 0; descriptor 1 (arbitrary state too) is the bystander whose registration must not
+    // change. The code treats descriptor numbers uniformly (map keys), so fixing which of the two is addressed loses nothing
+    // and keeps the map lookups concrete.
+    let i: usize = 0;
     let token: u64 = kani::any();
     match kind {
         6 => {
